@@ -36,6 +36,7 @@ def main():
     env = dict(os.environ, VERIF_COVERAGE="1", LLVM_PROFILE_FILE=os.path.join(COV, "fp-%8m.profraw"))
     import build
     os.environ["VERIF_COVERAGE"] = "1"
+    os.environ["LLVM_PROFILE_FILE"] = os.path.join(COV, "build-%8m.profraw")  # build scripts / proc macros of the instrumented build write here, not into /repo
     exe = build.fastpasta("rel")
     hexe = build.harness()
     rcs = {}
